@@ -244,6 +244,7 @@ def gen_scenario(rng, sid, big=False, force=None):
            'arrays': arrays, 'steps': steps,
            'threads': rng.choice([1, 1, 2, 3, 4])}
     scn['cfgs'] = {c: _pick_knobs(rng, c, None) for c in CLASSES}
+    scn['gid_mode'] = rng.choice(['default', 'default', 'unique', 'shared', 'shared3'])
     return scn
 
 
@@ -265,6 +266,7 @@ def gen_nondyadic(rng, sid):
     scn = {'sid': sid, 'gen': 'nondyadic', 'dim': dim, 'rs': [2, 1], 'unit': 0,
            'arrays': arrays, 'steps': [], 'threads': rng.choice([1, 4])}
     scn['cfgs'] = {c: _pick_knobs(rng, c, None) for c in CLASSES}
+    scn['gid_mode'] = rng.choice(['default', 'default', 'unique', 'shared', 'shared3'])
     return scn
 
 
@@ -289,7 +291,27 @@ def build_arrays(scn):
         else:
             pa = get_particle_array(name='a%d' % a)
         pas.append(pa)
+    set_gids(scn, pas)
     return pas
+
+
+def set_gids(scn, pas):
+    """gids as the scenario prescribes: 'default' leaves UINT_MAX (sorting then
+    uses the index), 'unique' numbers the particles, 'shared' gives pairs of
+    particles the same gid (as periodic/mirror ghosts share their original's):
+    sorting the neighbours by gid must never lose or duplicate a neighbour."""
+    mode = scn.get('gid_mode', 'default')
+    if mode == 'default':
+        return
+    for pa in pas:
+        n = pa.get_number_of_particles()
+        if n == 0:
+            continue
+        g = pa.get_carray('gid').get_npy_array()
+        if mode == 'unique':
+            g[:] = np.arange(n)[::-1]
+        else:
+            g[:] = np.arange(n) // (2 if mode == 'shared' else 3)
 
 
 def apply_ops(scn, pas, ops):
@@ -318,6 +340,7 @@ def apply_ops(scn, pas, ops):
                     pa.h[i] = hv
         elif op['op'] == 'remove':
             pa.remove_particles(np.array(idx, dtype=np.int64))
+    set_gids(scn, pas)
 
 
 def read_state(scn, pas):
